@@ -121,10 +121,46 @@ impl World<'_> {
         out.join(" ; ")
     }
 
+    /// The safety statements of C01 evaluated on the global history of the votes cast so far (correct validators' broadcasts and
+    /// the votes the Byzantine validators were made to sign): at most one notarized block per slot, at most one finalized
+    /// block per slot, finalized blocks pairwise on one chain, no finalized slot with a skip certificate.
+    fn history_safe(&self) -> bool {
+        let t = self.total;
+        let mut notarized: BTreeMap<u64, Vec<usize>> = BTreeMap::new();
+        let mut finalized: Vec<(u64, usize)> = Vec::new();
+        for (&h, &(s, _, _)) in &self.blocks {
+            if h == 0 { continue; }
+            let nw = self.stake_where(|u| self.cast(u, HV::Notar(s, h)));
+            if met(3, nw, t) { notarized.entry(s).or_default().push(h); }
+            let fin = met(3, self.stake_where(|u| self.cast(u, HV::Fin(s))), t);
+            if met(4, nw, t) || (fin && met(3, nw, t)) { finalized.push((s, h)); }
+        }
+        if notarized.values().any(|v| v.len() > 1) { return false; }
+        let anc = |mut x: usize, target: usize| -> bool { loop { if x == target { return true; } if x == 0 { return false; } x = self.blocks[&x].2; } };
+        for i in 0..finalized.len() {
+            let (s, h) = finalized[i];
+            if met(3, self.stake_where(|u| self.cast(u, HV::Skip(s)) || self.cast(u, HV::Sf(s))), t) { return false; }
+            for k in i + 1..finalized.len() {
+                let (s2, h2) = finalized[k];
+                if s == s2 { return false; }
+                let (lo, hi) = if s < s2 { (h, h2) } else { (h2, h) };
+                if !anc(hi, lo) { return false; }
+            }
+        }
+        true
+    }
+
     fn panic_seen(&mut self, j: usize, op: &str, msg: &str) {
         if msg.contains("consensus safety violation") {
             self.safety_panic = true;
-            self.rec.oracle(false, "safety-assert-fired", || format!("{op}: node {j} hit a 'consensus safety violation' assertion although < 20% of the stake is Byzantine{}", self.ctx));
+            // is consensus safety really violated on the global history? If not, the assertion itself is wrong (known finding
+            // D27: the finality tracker asserts that the notarized block of a slot is the one on the finalized chain)
+            if self.history_safe() {
+                let first = msg.lines().next().unwrap_or("").to_string();
+                self.rec.oracle(false, "safety-assert-fired-history-safe", || format!("{op}: node {j} hit a 'consensus safety violation' assertion ({first}) although the global vote history satisfies agreement (one notarized block per slot, finalized blocks on one chain, no finalized slot skip-certified){}", self.ctx));
+            } else {
+                self.rec.oracle(false, "safety-assert-fired", || format!("{op}: node {j} hit a 'consensus safety violation' assertion although < 20% of the stake is Byzantine{}", self.ctx));
+            }
         } else {
             self.rec.oracle(false, "node-panic", || format!("{op}: node {j} panicked: {msg}"));
         }
